@@ -269,9 +269,9 @@ def queries(tier):
         tag = f"{kind}{n}" + (f"w{w}" if w not in (0, 8) else "")
         f = (lambda kind=kind, n=n, w=w: ArbiterHarness(n, kind, w or 8))
         K = 10 if quick else 16
-        qs.append(Query(f"bmc_{tag}", f, K, covers=[], split=False, timeout=600,
-                        desc=f"{kind} arbiter, {n} input(s): every valid/data/ready free in every cycle"))
-        qs.append(Query(f"cover_{tag}", f, 10, asserts=[], timeout=600, desc="reachability twins"))
+        qs.append(Query(f"bmc_{tag}", f, K, split=False, timeout=600,
+                        desc=f"{kind} arbiter, {n} input(s): every valid/data/ready free in every cycle (assertions and "
+                             "reachability twins)"))
         qs.append(Query(f"ind_{tag}", f, 1, kind="ind", invariants=_inv, timeout=600,
                         desc="1-step induction from an arbitrary selection state (all histories), ghost selection == active_stream_index"))
         qs.append(Query(f"cosim_{tag}", f, 0, kind="cosim", cosim_cycles=200 if quick else 1000))
